@@ -691,6 +691,23 @@ func catalogue() []corruption {
 			*r.timestamp++
 			return true
 		}},
+		{"payload/zero-block-hash-and-wrong-timestamp", true, func(s *sim, r *blockRefs, _ *stateBox) bool {
+			// a payload that is not the empty payload is executed, whatever its block hash says
+			if r.timestamp == nil || r.blockHash == nil {
+				return false
+			}
+			*r.blockHash = common.Hash32{}
+			*r.timestamp += 7
+			return true
+		}},
+		{"payload/zero-block-hash-and-wrong-randao", true, func(s *sim, r *blockRefs, _ *stateBox) bool {
+			if r.prevRandao == nil || r.blockHash == nil {
+				return false
+			}
+			*r.blockHash = common.Hash32{}
+			r.prevRandao[3] ^= 0x10
+			return true
+		}},
 		{"payload/block-hash", true, func(s *sim, r *blockRefs, _ *stateBox) bool { // any hash is fine for the consensus layer: stays valid
 			if r.blockHash == nil {
 				return false
